@@ -105,6 +105,7 @@ type solveOpts struct {
 	timeout  time.Duration
 	all      bool // run every solver and cross-check
 	noCache  bool
+	noSplit  bool
 	parallel int
 }
 
@@ -116,6 +117,16 @@ func discharge(vc *VC, o *Obligation, opts solveOpts) {
 		o.Status = "proved"
 		o.Solver = cacheSolver(ck)
 		return
+	}
+	if !opts.all {
+		// a lighter query first: parameters do not propagate relevance, so only facts about the
+		// state the goal reads are kept (fewer assumptions: sound; undecided falls through to the full query)
+		lq := vc.queryLight(o)
+		if r := runSolver("z3-new", lq, 3*time.Second); r.verdict == "unsat" {
+			o.Status, o.Solver, o.Time = "proved", "z3-new(light)", r.secs
+			cachePut(ck, o.Solver)
+			return
+		}
 	}
 	q := vc.query(o, false)
 	o.Query = q
@@ -201,6 +212,50 @@ func discharge(vc *VC, o *Obligation, opts solveOpts) {
 		o.Model = m.out
 	default:
 		o.Status = "unknown"
+		if len(o.Splits) > 0 && !opts.noSplit {
+			// case analysis on the recorded hints: proved iff every case is unsat
+			n := len(o.Splits)
+			all := true
+			for mask := 0; mask < 1<<n && all; mask++ {
+				var extra strings.Builder
+				for i, t := range o.Splits {
+					if mask&(1<<i) != 0 {
+						fmt.Fprintf(&extra, "(assert %s)\n", t)
+					} else {
+						fmt.Fprintf(&extra, "(assert (not %s))\n", t)
+					}
+				}
+				qs := strings.Replace(q, "(check-sat)", extra.String()+"(check-sat)", 1)
+				ok := false
+				ctx, cancel := context.WithCancel(context.Background())
+				ch := make(chan solverRes, 3)
+				names := []string{"z3-new", "z3", "cvc5"}
+				for _, sname := range names {
+					go func(sname string) { ch <- runSolverCtx(ctx, sname, qs, opts.timeout) }(sname)
+				}
+				for i := 0; i < len(names); i++ {
+					rr := <-ch
+					if rr.verdict == "unsat" {
+						ok = true
+						break
+					}
+					if rr.verdict == "sat" {
+						break
+					}
+				}
+				cancel()
+				if !ok {
+					all = false
+				}
+			}
+			if all {
+				o.Status = "proved"
+				o.Solver = fmt.Sprintf("case-split(%d)", 1<<n)
+				o.Detail += " ; decided by case analysis on " + strings.Join(o.Splits, ", ")
+				cachePut(ck, o.Solver)
+				return
+			}
+		}
 		// candidate counterexample: drop every quantified assumption (the goal is kept) and ask again.
 		// A model found this way may be spurious and is only trusted once it replays on the real code.
 		var b strings.Builder
